@@ -8,6 +8,8 @@
 From Coq Require Import List NArith String Bool.
 From Model Require Import Base Names Flt F32 Matches Detect.
 From Proofs Require Import SortFacts ContainerFacts FloatLaws F32Facts.
+From Model Require Import F32.
+From Proofs Require Import F32Laws.
 Import ListNotations.
 
 (* every container reachable through the public API keeps its key sequence equal to an insertion
@@ -58,3 +60,13 @@ Print Assumptions C08_f32_order_total.
 Theorem C08_sort_is_permutation : forall A (lt : A -> A -> bool) l, Permutation.Permutation (isort lt l) l.
 Proof. intros. apply isort_perm. Qed.
 Print Assumptions C08_sort_is_permutation.
+
+(* for binary32 the order laws are proved (Proofs/F32Laws.v): "a is preferred to b" is two-sided *)
+Theorem C08_prefers_is_two_sided_binary32 :
+  forall a b, cmp_key F32ops a b = Lt -> kbeats F32ops a b.
+Proof. exact (C08_prefers_is_two_sided F32ops F32_CmpLaws). Qed.
+Print Assumptions C08_prefers_is_two_sided_binary32.
+
+Theorem C08_cmp_laws_hold_for_binary32 : CmpLaws F32ops.
+Proof. exact F32_CmpLaws. Qed.
+Print Assumptions C08_cmp_laws_hold_for_binary32.
